@@ -5,13 +5,16 @@ import Aiortc.Lemmas.SctpNoCrashQuiet
 
 `Props/C05Sctp.lean` proves crash-freedom of `.rx` from the invariant `Inv`, which excludes (a) channels created
 before they can get a stream id and (b) partially reliable traffic, and says nothing about the application inputs.
-Here the invariant `Inv2 U e` (`Aiortc.Sctp.V2.WF`, see `Lemmas/C05/V2Inv.lean` and `notes/C05c.md`) has neither
+Here the invariant `Inv2 B e` (`Aiortc.Sctp.V2.WF`, see `Lemmas/C05/V2Inv.lean` and `notes/C05c.md`) has neither
 restriction; it holds from `Ep.init` on (phase `Pre` before `start()`), is preserved by EVERY input under the API
 preconditions stated below, and makes every datagram harmless (`rx_never_crashes2_proved`,
 `reachable_rx_never_crashes_proved`).  One capacity hypothesis is left, and it is really needed:
 
-* `U` : the set of stream ids that ever carry partially reliable user messages has at most 16381 elements
-  (a FORWARD-TSN chunk over more streams does not fit its 16-bit length: `Chunk.inRange`, `4 + 4·n + 4 < 65536`).
+* the budget `B` of `Inv2 B e`: there is a set `U` of streams for partially reliable user messages with
+  `|U| + (number of armed application handlers) + B ≤ 16381` (a FORWARD-TSN chunk over more streams does not fit its
+  16-bit length: `Chunk.inRange`, `4 + 4·n + 4 < 65536`). `channel.send()` and arming a handler each take one unit of
+  `B`; a handler that fires inside an event (also inside `_handle_data`: `open`, `message`, `datachannel`, …) spends the
+  unit reserved when it was armed. Nothing else is assumed about the handlers: any kind, any channel index.
 
 The stream id capacity hypothesis `Cap` of the first version is gone: since the fix "close a data channel that cannot
 get a stream id instead of using one beyond 65535" (modelled in `flushLoop`), a peer that occupies every stream id of
@@ -22,7 +25,7 @@ open Aiortc Aiortc.Gen Aiortc.Sctp Aiortc.Sctp.Wire
 set_option linter.unusedSimpArgs false
 
 /-- The invariant. -/
-def Inv2 (U : List Nat) (e : Ep) : Prop := V2.WF U e ∧ Acc 0 e.rwnd e.inStreams ∧ SidOk e.inStreams
+def Inv2 (B : Nat) (e : Ep) : Prop := V2.WFx B e ∧ Acc 0 e.rwnd e.inStreams ∧ SidOk e.inStreams
 
 /-- From a weakest-precondition fact about a handler to the outputs of `step`. -/
 theorem step_of_wp {e : Ep} {now : Int} {inp : Input} {A : String → Prop} {P : Ep → Prop}
@@ -59,57 +62,57 @@ theorem step_ok {e : Ep} {now : Int} {inp : Input} {P : Ep → Prop}
   have hno : ∀ k, Out.crash k ∉ (step e now inp).2 := fun k hk => h1 k hk
   exact ⟨hno, h2 hno⟩
 
-theorem wf_now {U} {e : Ep} (h : V2.WF U e) (now : Int) : V2.WF U { e with now := now } :=
-  ⟨h.net, h.ch, h.tx, h.rx, h.rcReq, h.rcResp, h.sack, h.ids, h.cap, h.tm1, h.tm2, h.tasks, h.rcr⟩
+theorem wf_now {B} {e : Ep} (h : V2.WFx B e) (now : Int) : V2.WFx B { e with now := now } :=
+  h.map (fun _ h => ⟨h.net, h.ch, h.tx, h.rx, h.rcReq, h.rcResp, h.sack, h.ids, h.cap, h.tm1, h.tm2, h.tasks, h.rcr⟩) rfl
 
 /-! ## the receive path -/
 
 /-- The full statement: `Inv2` alone makes every datagram harmless, and is preserved. -/
 def rx_never_crashes2 : Prop :=
-  ∀ (U : List Nat) (e : Ep) (d cookie : Bytes) (now : Int), Inv2 U e → IsBytes d → cookie.length ≤ 1000 →
-    (∀ k, Out.crash k ∉ (step e now (.rx d cookie)).2) ∧ Inv2 U (step e now (.rx d cookie)).1
+  ∀ (B : Nat) (e : Ep) (d cookie : Bytes) (now : Int), Inv2 B e → IsBytes d → cookie.length ≤ 1000 →
+    (∀ k, Out.crash k ∉ (step e now (.rx d cookie)).2) ∧ Inv2 B (step e now (.rx d cookie)).1
 
 /-- NO byte string makes the receive path raise or hang — in any association state, with channels still waiting for
 their stream id (also when the peer occupies every id of the local parity), with partially reliable messages queued,
 abandoned or in flight — and the invariant holds again. -/
 theorem rx_never_crashes2_proved : rx_never_crashes2 := by
-  intro U e d cookie now h hd hc
+  intro B e d cookie now h hd hc
   obtain ⟨hw, ha, hs⟩ := h
-  refine step_ok (P := Inv2 U) ?_
+  refine step_ok (P := Inv2 B) ?_
   show wp NoExc (handleData d cookie) _ _
   refine V2.wp_handleData (wf_now hw now) ha hs hd hc ?_
   intro e' l' hw' ha' hs'
   exact ⟨hw', ha', hs'⟩
 
 /-- `Out.crash "hang"` in particular. -/
-theorem rx_no_hang2 (U : List Nat) (e : Ep) (d cookie : Bytes) (now : Int)
-    (h : Inv2 U e) (hd : IsBytes d) (hc : cookie.length ≤ 1000) :
+theorem rx_no_hang2 (B : Nat) (e : Ep) (d cookie : Bytes) (now : Int)
+    (h : Inv2 B e) (hd : IsBytes d) (hc : cookie.length ≤ 1000) :
     Out.crash "hang" ∉ (step e now (.rx d cookie)).2 :=
-  (rx_never_crashes2_proved U e d cookie now h hd hc).1 _
+  (rx_never_crashes2_proved B e d cookie now h hd hc).1 _
 
 /-! ## timers and queued tasks (no side condition left: what they need is part of the invariant) -/
 
 /-- A timer that is armed (`asyncio` only calls back a handle that was started and not cancelled) neither raises nor
 breaks the invariant. -/
-theorem fire_preserves_inv2 (U : List Nat) (e : Ep) (now : Int) (t : String) (h : Inv2 U e)
+theorem fire_preserves_inv2 (B : Nat) (e : Ep) (now : Int) (t : String) (h : Inv2 B e)
     (ht : t = "t1" ∧ e.t1 = true ∨ t = "t2" ∧ e.t2 = true ∨ t = "t3" ∨ t = "reconfig") :
-    (∀ k, Out.crash k ∉ (step e now (.fire t)).2) ∧ Inv2 U (step e now (.fire t)).1 := by
+    (∀ k, Out.crash k ∉ (step e now (.fire t)).2) ∧ Inv2 B (step e now (.fire t)).1 := by
   obtain ⟨hw, ha, hs⟩ := h
   have hw0 := wf_now hw now
-  have post : ∀ (e' : Ep) (l' : List Out), V2.WF U e' → e'.rwnd = e.rwnd → e'.inStreams = e.inStreams →
-      (fun (_ : Unit) (s' : St) => Inv2 U s'.1) () (e', l') :=
+  have post : ∀ (e' : Ep) (l' : List Out), V2.WFx B e' → e'.rwnd = e.rwnd → e'.inStreams = e.inStreams →
+      (fun (_ : Unit) (s' : St) => Inv2 B s'.1) () (e', l') :=
     fun e' l' hw' hr hi => ⟨hw', ha.frame hr hi, hs.frame hi⟩
-  refine step_ok (P := Inv2 U) ?_
+  refine step_ok (P := Inv2 B) ?_
   rcases ht with ⟨rfl, hc⟩ | ⟨rfl, hc⟩ | rfl | rfl
   · exact V2.wp_fire_t1 hw0 hc post
   · exact V2.wp_fire_t2 hw0 hc post
   · exact V2.wp_fire_t3 hw0 post
   · exact V2.wp_fire_reconfig hw0 post
 
-theorem task_preserves_inv2 (U : List Nat) (e : Ep) (now : Int) (h : Inv2 U e) :
-    (∀ k, Out.crash k ∉ (step e now .task).2) ∧ Inv2 U (step e now .task).1 := by
+theorem task_preserves_inv2 (B : Nat) (e : Ep) (now : Int) (h : Inv2 B e) :
+    (∀ k, Out.crash k ∉ (step e now .task).2) ∧ Inv2 B (step e now .task).1 := by
   obtain ⟨hw, ha, hs⟩ := h
-  refine step_ok (P := Inv2 U) ?_
+  refine step_ok (P := Inv2 B) ?_
   show wp NoExc runTask _ _
   refine V2.wp_runTask (wf_now hw now) ?_
   intro e' l' hw' hr hi
@@ -118,99 +121,117 @@ theorem task_preserves_inv2 (U : List Nat) (e : Ep) (now : Int) (h : Inv2 U e) :
 /-! ## application inputs (after `start()`) -/
 
 /-- `createDataChannel` with parameters the API can encode (`CreateOk`). -/
-theorem create_preserves_inv2 (U : List Nat) (e : Ep) (now : Int) (p : CreateParams)
-    (h : Inv2 U e) (hp : V2.CreateOk p) :
-    (∀ k, Out.crash k ∉ (step e now (.create p)).2) ∧ Inv2 U (step e now (.create p)).1 := by
+theorem create_preserves_inv2 (B : Nat) (e : Ep) (now : Int) (p : CreateParams)
+    (h : Inv2 B e) (hp : V2.CreateOk p) :
+    (∀ k, Out.crash k ∉ (step e now (.create p)).2) ∧ Inv2 B (step e now (.create p)).1 := by
   obtain ⟨hw, ha, hs⟩ := h
-  refine step_ok (P := Inv2 U) ?_
+  refine step_ok (P := Inv2 B) ?_
   show wp NoExc (createChannel p) _ _
   refine V2.wp_create hp ?_
   intro e' l' hc
   rcases hc with rfl | ⟨c, hc⟩
   · exact ⟨wf_now hw now, ha, hs⟩
-  · have hw' := (wf_now hw now).created hc
+  · have hre : e'.reactions = ({ e with now := now } : Ep).reactions := by cases hc <;> rfl
+    have hw' : V2.WFx B e' := (wf_now hw now).map (fun _ h => h.created hc) hre
     cases hc <;> exact ⟨hw', ha, hs⟩
 
-/-- `channel.send` on an existing channel that is reliable or whose stream is in `U` (`SendOk`). -/
-theorem send_preserves_inv2 (U : List Nat) (e : Ep) (now : Int) (i : Nat) (isStr : Bool) (data : Bytes)
-    (h : Inv2 U e) (hi : i < e.chans.length) (hs' : V2.SendOk U e i) :
-    (∀ k, Out.crash k ∉ (step e now (.send i isStr data)).2) ∧ Inv2 U (step e now (.send i isStr data)).1 := by
+/-- `channel.send` on an existing channel object (any channel: if it is partially reliable its stream joins the set
+of streams a FORWARD-TSN may have to list): one unit of the budget. -/
+theorem send_preserves_inv2 (B : Nat) (e : Ep) (now : Int) (i : Nat) (isStr : Bool) (data : Bytes)
+    (h : Inv2 (B + 1) e) (hi : i < e.chans.length) :
+    (∀ k, Out.crash k ∉ (step e now (.send i isStr data)).2) ∧ Inv2 B (step e now (.send i isStr data)).1 := by
   obtain ⟨hw, ha, hs⟩ := h
-  refine step_ok (P := Inv2 U) ?_
-  refine V2.wp_send (wf_now hw now) hi hs' ?_
+  refine step_ok (P := Inv2 B) ?_
+  refine V2.wp_send (wf_now hw now) hi ?_
   intro e' l' hw' hr hin
   exact ⟨hw', ha.frame hr hin, hs.frame hin⟩
+
+/-- The application arms a one-shot event handler that will call `channel.send(data)` from inside the event
+(`open`, `close`, `bufferedamountlow`, `message` of channel `i`, or the transport's `datachannel` event) — ANY kind
+and ANY channel index, also one that does not exist (yet): one unit of the budget. -/
+theorem react_preserves_inv2 (B : Nat) (e : Ep) (now : Int) (k i : Nat) (isStr : Bool) (data : Bytes)
+    (h : Inv2 (B + 1) e) :
+    (∀ c, Out.crash c ∉ (step e now (.react k i isStr data)).2) ∧ Inv2 B (step e now (.react k i isStr data)).1 := by
+  obtain ⟨hw, ha, hs⟩ := h
+  refine step_ok (P := Inv2 B) ?_
+  refine V2.wp_arm (wf_now hw now) ?_
+  intro e' l' hw' hr hin
+  exact ⟨hw', ha.frame hr hin, hs.frame hin⟩
+
+/-- The budget is an upper bound: less is fine. -/
+theorem Inv2.mono {B B' : Nat} {e : Ep} (h : Inv2 B e) (hb : B' ≤ B) : Inv2 B' e :=
+  ⟨h.1.mono hb, h.2⟩
 
 /-- `channel.close()` on an existing channel while the association is ESTABLISHED (the stream reset is queued).
 In the other association states `_data_channels.pop(channel.id)` raises `KeyError` if the id is not registered any
 more, and `Inv2` does not track which channel objects are registered: see `close_only_keyerror`. -/
-theorem close_preserves_inv2_partial (U : List Nat) (e : Ep) (now : Int) (i : Nat)
-    (h : Inv2 U e) (hi : i < e.chans.length) (hk : e.assoc = .established) :
-    (∀ k, Out.crash k ∉ (step e now (.close i)).2) ∧ Inv2 U (step e now (.close i)).1 := by
+theorem close_preserves_inv2_partial (B : Nat) (e : Ep) (now : Int) (i : Nat)
+    (h : Inv2 B e) (hi : i < e.chans.length) (hk : e.assoc = .established) :
+    (∀ k, Out.crash k ∉ (step e now (.close i)).2) ∧ Inv2 B (step e now (.close i)).1 := by
   obtain ⟨hw, ha, hs⟩ := h
-  refine step_ok (P := Inv2 U) ?_
+  refine step_ok (P := Inv2 B) ?_
   refine V2.wp_close (wf_now hw now) hi (Or.inr hk) ?_
   intro e' l' hw' hr hin
   exact ⟨hw', ha.frame hr hin, hs.frame hin⟩
 
 /-- `close()` in any association state: the only exception that can escape is that `KeyError`. -/
-theorem close_only_keyerror (U : List Nat) (e : Ep) (now : Int) (i : Nat)
-    (h : Inv2 U e) (hi : i < e.chans.length) :
+theorem close_only_keyerror (B : Nat) (e : Ep) (now : Int) (i : Nat)
+    (h : Inv2 B e) (hi : i < e.chans.length) :
     (∀ k, Out.crash k ∈ (step e now (.close i)).2 → k = "KeyError") ∧
-    ((∀ k, Out.crash k ∉ (step e now (.close i)).2) → Inv2 U (step e now (.close i)).1) := by
+    ((∀ k, Out.crash k ∉ (step e now (.close i)).2) → Inv2 B (step e now (.close i)).1) := by
   obtain ⟨hw, ha, hs⟩ := h
-  refine step_of_wp (A := fun k => k = "KeyError") (P := Inv2 U) ?_
+  refine step_of_wp (A := fun k => k = "KeyError") (P := Inv2 B) ?_
   refine V2.wp_close (wf_now hw now) hi (Or.inl rfl) ?_
   intro e' l' hw' hr hin
   exact ⟨hw', ha.frame hr hin, hs.frame hin⟩
 
-theorem threshold_preserves_inv2 (U : List Nat) (e : Ep) (now : Int) (i : Nat) (v : Int)
-    (h : Inv2 U e) (hi : i < e.chans.length) :
-    (∀ k, Out.crash k ∉ (step e now (.threshold i v)).2) ∧ Inv2 U (step e now (.threshold i v)).1 := by
+theorem threshold_preserves_inv2 (B : Nat) (e : Ep) (now : Int) (i : Nat) (v : Int)
+    (h : Inv2 B e) (hi : i < e.chans.length) :
+    (∀ k, Out.crash k ∉ (step e now (.threshold i v)).2) ∧ Inv2 B (step e now (.threshold i v)).1 := by
   obtain ⟨hw, ha, hs⟩ := h
-  refine step_ok (P := Inv2 U) ?_
+  refine step_ok (P := Inv2 B) ?_
   refine V2.wp_threshold (wf_now hw now) hi ?_
   intro e' l' hw' hr hin
   exact ⟨hw', ha.frame hr hin, hs.frame hin⟩
 
-theorem stop_preserves_inv2 (U : List Nat) (e : Ep) (now : Int) (h : Inv2 U e) :
-    (∀ k, Out.crash k ∉ (step e now .stop).2) ∧ Inv2 U (step e now .stop).1 := by
+theorem stop_preserves_inv2 (B : Nat) (e : Ep) (now : Int) (h : Inv2 B e) :
+    (∀ k, Out.crash k ∉ (step e now .stop).2) ∧ Inv2 B (step e now .stop).1 := by
   obtain ⟨hw, ha, hs⟩ := h
-  refine step_ok (P := Inv2 U) ?_
+  refine step_ok (P := Inv2 B) ?_
   refine V2.wp_stop (wf_now hw now) ?_
   intro e' l' hw' hr hin
   exact ⟨hw', ha.frame hr hin, hs.frame hin⟩
 
 /-! ## before `start()`, and `start()` -/
 
-theorem pre_now {U} {e : Ep} (h : V2.Pre U e) (now : Int) : V2.Pre U { e with now := now } :=
+theorem pre_now {B} {e : Ep} (h : V2.Pre B e) (now : Int) : V2.Pre B { e with now := now } :=
   ⟨h.ns, h.cl, h.t1, h.tk, wf_now h.wf now, h.acc, h.so⟩
 
-/-- A fresh endpoint (32-bit tag and initial TSN) satisfies the pre-start invariant. -/
-theorem pre_init (U : List Nat) (hU : U.length ≤ 16381) (isServer : Bool) (tag tsn : Nat) (ht : tag < 4294967296)
-    (hs : tsn < 4294967296) : V2.Pre U (Ep.init isServer tag tsn) := by
-  refine ⟨rfl, rfl, rfl, by simp [Ep.init], ?_, ⟨by simp [Ep.init, reasmBytes], by simp [Ep.init]⟩,
-    by intro p hp; simp [Ep.init] at hp⟩
+/-- A fresh endpoint (32-bit tag and initial TSN) satisfies the pre-start invariant with any budget `B ≤ 16381`. -/
+theorem pre_init (B : Nat) (hB : B ≤ 16381) (isServer : Bool) (tag tsn : Nat) (ht : tag < 4294967296)
+    (hs : tsn < 4294967296) : V2.Pre B (Ep.init isServer tag tsn) := by
+  refine ⟨rfl, rfl, rfl, by simp [Ep.init], ⟨[], by simp [Ep.init]; omega, ?_⟩,
+    ⟨by simp [Ep.init, reasmBytes], by simp [Ep.init]⟩, by intro p hp; simp [Ep.init] at hp⟩
   refine ⟨⟨by simp [Ep.init, V2.startF], ⟨0, rfl, by decide⟩, by simp [Ep.init, V2.startF], ht,
       by simp [Ep.init, V2.startF, MAX_STREAMS], by simp [Ep.init, V2.startF, MAX_STREAMS]⟩,
     ⟨by simp [Ep.init, V2.startF], by simp [Ep.init, V2.startF], by simp [Ep.init, V2.startF],
      by simp [Ep.init, V2.startF], by simp [Ep.init, V2.startF], by simp [Ep.init, V2.startF],
-     by simp [Ep.init, V2.startF]⟩,
+     by simp [Ep.init, V2.startF], by simp [Ep.init, V2.startF], by simp [Ep.init, V2.startF]⟩,
     ⟨by simp [Ep.init, V2.startF], by simp [Ep.init, V2.startF], by simp [Ep.init, V2.startF, V2.Chain, wire],
      by simp [Ep.init, V2.startF, V2.LastE, wire], ⟨by simp [Ep.init, V2.startF], by simp [Ep.init, V2.startF]⟩,
      by simp [Ep.init, V2.startF], by simp [Ep.init, V2.startF], by simp [Ep.init, V2.startF], ?_⟩,
     ⟨by simp [Ep.init, V2.startF]⟩, ?_, ?_, by simp [Ep.init, V2.startF],
-    ⟨_, rfl, by split <;> omega⟩, hU, by simp [Ep.init, V2.startF], by simp [Ep.init, V2.startF],
+    ⟨_, rfl, by split <;> omega⟩, by simp, by simp [Ep.init, V2.startF], by simp [Ep.init, V2.startF],
     by simp [Ep.init, V2.startF], by simp [Ep.init, V2.startF]⟩
   · simp only [Ep.init, V2.startF]; omega
   · simp only [Ep.init, V2.startF, InRange32]; omega
   · simp only [Ep.init, V2.startF, InRange32]; omega
 
 /-- `createDataChannel` before `start()` (what `RTCPeerConnection.createDataChannel` does first). -/
-theorem create_preserves_pre (U : List Nat) (e : Ep) (now : Int) (p : CreateParams)
-    (h : V2.Pre U e) (hp : V2.CreateOk p) :
-    (∀ k, Out.crash k ∉ (step e now (.create p)).2) ∧ V2.Pre U (step e now (.create p)).1 := by
-  refine step_ok (P := V2.Pre U) ?_
+theorem create_preserves_pre (B : Nat) (e : Ep) (now : Int) (p : CreateParams)
+    (h : V2.Pre B e) (hp : V2.CreateOk p) :
+    (∀ k, Out.crash k ∉ (step e now (.create p)).2) ∧ V2.Pre B (step e now (.create p)).1 := by
+  refine step_ok (P := V2.Pre B) ?_
   show wp NoExc (createChannel p) _ _
   refine V2.wp_create hp ?_
   intro e' l' hc
@@ -218,89 +239,110 @@ theorem create_preserves_pre (U : List Nat) (e : Ep) (now : Int) (p : CreatePara
   · exact pre_now h now
   · exact (pre_now h now).created hc
 
+/-- Arming a handler before `start()`. -/
+theorem react_preserves_pre (B : Nat) (e : Ep) (now : Int) (k i : Nat) (isStr : Bool) (data : Bytes)
+    (h : V2.Pre (B + 1) e) :
+    (∀ c, Out.crash c ∉ (step e now (.react k i isStr data)).2) ∧ V2.Pre B (step e now (.react k i isStr data)).1 := by
+  refine step_ok (P := V2.Pre B) ?_
+  have h' := pre_now h now
+  obtain ⟨U, hb, hw⟩ := id h'.wf
+  simp only [handle, wp_modE]
+  refine ⟨h'.ns, h'.cl, h'.t1, h'.tk, ⟨U, ?_, hw.setReactions _⟩, h'.acc, h'.so⟩
+  simp only [List.length_append, List.length_singleton]
+  simp only [V2.startF] at hb
+  omega
+
 /-- The `_data_channel_flush` task queued by it does nothing before the association is established. -/
-theorem task_preserves_pre (U : List Nat) (e : Ep) (now : Int) (h : V2.Pre U e) :
-    (∀ k, Out.crash k ∉ (step e now .task).2) ∧ V2.Pre U (step e now .task).1 := by
-  refine step_ok (P := V2.Pre U) ?_
+theorem task_preserves_pre (B : Nat) (e : Ep) (now : Int) (h : V2.Pre B e) :
+    (∀ k, Out.crash k ∉ (step e now .task).2) ∧ V2.Pre B (step e now .task).1 := by
+  refine step_ok (P := V2.Pre B) ?_
   show wp NoExc runTask _ _
   exact V2.wp_runTask_pre (pre_now h now) (fun e' l' h' => h')
 
 /-- `start()` with a 16-bit remote port establishes the invariant (the client sends its INIT without raising). -/
-theorem start_establishes_inv2 (U : List Nat) (e : Ep) (now : Int) (rp : Nat) (h : V2.Pre U e)
+theorem start_establishes_inv2 (B : Nat) (e : Ep) (now : Int) (rp : Nat) (h : V2.Pre B e)
     (hr : rp < 65536) :
-    (∀ k, Out.crash k ∉ (step e now (.start rp)).2) ∧ Inv2 U (step e now (.start rp)).1 := by
-  refine step_ok (P := Inv2 U) ?_
+    (∀ k, Out.crash k ∉ (step e now (.start rp)).2) ∧ Inv2 B (step e now (.start rp)).1 := by
+  refine step_ok (P := Inv2 B) ?_
   refine V2.wp_start (pre_now h now) hr ?_
   intro e' l' hw' hr' hin
   exact ⟨hw', h.acc.frame hr' hin, h.so.frame hin⟩
 
+theorem Pre.mono {B B' : Nat} {e : Ep} (h : V2.Pre B e) (hb : B' ≤ B) : V2.Pre B' e :=
+  ⟨h.ns, h.cl, h.t1, h.tk, h.wf.mono hb, h.acc, h.so⟩
+
 /-! ## arbitrary input sequences from `Ep.init` -/
 
-/-- States reachable before `start()`: a fresh endpoint, `createDataChannel` calls and the tasks they queue.
-(`C e k` was the stream id capacity assumed where `k` bytes of slack were consumed; nothing depends on it any more,
-the goal instantiates it with `True`.) -/
-inductive Before (C : Ep → Nat → Prop) (U : List Nat) : Ep → Prop
-  | init (isServer : Bool) (tag tsn : Nat) : tag < 4294967296 → tsn < 4294967296 →
-      Before C U (Ep.init isServer tag tsn)
-  | create {e : Ep} (now : Int) (p : CreateParams) : Before C U e → V2.CreateOk p → C e 12 →
-      Before C U (step e now (.create p)).1
-  | task {e : Ep} (now : Int) : Before C U e → Before C U (step e now .task).1
+/-- States reachable before `start()`: a fresh endpoint, `createDataChannel` calls, the tasks they queue, and arming
+event handlers. `B` is the budget left: how many more times the application may arm a handler or call `send()`
+(each may put a partially reliable message on one more stream; a FORWARD-TSN can list 16381 streams).
+(`C e k` was the stream id capacity side condition of the first version; nothing depends on it, the goal uses `True`.) -/
+inductive Before (C : Ep → Nat → Prop) : Nat → Ep → Prop
+  | init (B : Nat) (isServer : Bool) (tag tsn : Nat) : B ≤ 16381 → tag < 4294967296 → tsn < 4294967296 →
+      Before C B (Ep.init isServer tag tsn)
+  | create {B : Nat} {e : Ep} (now : Int) (p : CreateParams) : Before C B e → V2.CreateOk p → C e 12 →
+      Before C B (step e now (.create p)).1
+  | react {B : Nat} {e : Ep} (now : Int) (k i : Nat) (isStr : Bool) (data : Bytes) : Before C (B + 1) e →
+      Before C B (step e now (.react k i isStr data)).1
+  | task {B : Nat} {e : Ep} (now : Int) : Before C B e → Before C B (step e now .task).1
 
 /-- States reachable after `start()` by ANY sequence of inputs: datagrams of bytes (with a cookie of ≤ 1000 bytes for
 the INIT-ACK), expiries of armed timers, queued tasks, and the application calls under the preconditions of the API:
 `createDataChannel` with encodable parameters, `send` / `close` / `bufferedAmountLowThreshold` on existing channel
-objects, partially reliable sends only on the streams of `U`, `close()` while established. -/
-inductive Reach (C : Ep → Nat → Prop) (U : List Nat) : Ep → Prop
-  | start {e : Ep} (now : Int) (rp : Nat) : Before C U e → rp < 65536 → Reach C U (step e now (.start rp)).1
-  | rx {e : Ep} (now : Int) (d cookie : Bytes) : Reach C U e → IsBytes d → cookie.length ≤ 1000 →
-      C e (V2.dgramDataBytes d) → Reach C U (step e now (.rx d cookie)).1
-  | fire {e : Ep} (now : Int) (t : String) : Reach C U e →
+objects, `close()` while established, arming ANY event handler that re-enters `send()`; `send` and arming a handler
+each take one unit of the budget `B`. -/
+inductive Reach (C : Ep → Nat → Prop) : Nat → Ep → Prop
+  | start {B : Nat} {e : Ep} (now : Int) (rp : Nat) : Before C B e → rp < 65536 → Reach C B (step e now (.start rp)).1
+  | rx {B : Nat} {e : Ep} (now : Int) (d cookie : Bytes) : Reach C B e → IsBytes d → cookie.length ≤ 1000 →
+      C e (V2.dgramDataBytes d) → Reach C B (step e now (.rx d cookie)).1
+  | fire {B : Nat} {e : Ep} (now : Int) (t : String) : Reach C B e →
       (t = "t1" ∧ e.t1 = true ∨ t = "t2" ∧ e.t2 = true ∨ t = "t3" ∨ t = "reconfig") →
-      Reach C U (step e now (.fire t)).1
-  | task {e : Ep} (now : Int) : Reach C U e → Reach C U (step e now .task).1
-  | create {e : Ep} (now : Int) (p : CreateParams) : Reach C U e → V2.CreateOk p → C e 12 →
-      Reach C U (step e now (.create p)).1
-  | send {e : Ep} (now : Int) (i : Nat) (isStr : Bool) (data : Bytes) : Reach C U e → i < e.chans.length →
-      V2.SendOk U e i → Reach C U (step e now (.send i isStr data)).1
-  | close {e : Ep} (now : Int) (i : Nat) : Reach C U e → i < e.chans.length → e.assoc = .established →
-      Reach C U (step e now (.close i)).1
-  | threshold {e : Ep} (now : Int) (i : Nat) (v : Int) : Reach C U e → i < e.chans.length →
-      Reach C U (step e now (.threshold i v)).1
-  | stop {e : Ep} (now : Int) : Reach C U e → Reach C U (step e now .stop).1
+      Reach C B (step e now (.fire t)).1
+  | task {B : Nat} {e : Ep} (now : Int) : Reach C B e → Reach C B (step e now .task).1
+  | create {B : Nat} {e : Ep} (now : Int) (p : CreateParams) : Reach C B e → V2.CreateOk p → C e 12 →
+      Reach C B (step e now (.create p)).1
+  | send {B : Nat} {e : Ep} (now : Int) (i : Nat) (isStr : Bool) (data : Bytes) : Reach C (B + 1) e →
+      i < e.chans.length → Reach C B (step e now (.send i isStr data)).1
+  | react {B : Nat} {e : Ep} (now : Int) (k i : Nat) (isStr : Bool) (data : Bytes) : Reach C (B + 1) e →
+      Reach C B (step e now (.react k i isStr data)).1
+  | close {B : Nat} {e : Ep} (now : Int) (i : Nat) : Reach C B e → i < e.chans.length → e.assoc = .established →
+      Reach C B (step e now (.close i)).1
+  | threshold {B : Nat} {e : Ep} (now : Int) (i : Nat) (v : Int) : Reach C B e → i < e.chans.length →
+      Reach C B (step e now (.threshold i v)).1
+  | stop {B : Nat} {e : Ep} (now : Int) : Reach C B e → Reach C B (step e now .stop).1
 
-theorem before_pre (C : Ep → Nat → Prop) (U : List Nat) (hU : U.length ≤ 16381) {e : Ep} (h : Before C U e) :
-    V2.Pre U e := by
+theorem before_pre (C : Ep → Nat → Prop) {B : Nat} {e : Ep} (h : Before C B e) : V2.Pre B e := by
   induction h with
-  | init isServer tag tsn ht hs => exact pre_init U hU isServer tag tsn ht hs
-  | create now p _ hp _ ih => exact (create_preserves_pre U _ now p ih hp).2
-  | task now _ ih => exact (task_preserves_pre U _ now ih).2
+  | init B isServer tag tsn hB ht hs => exact pre_init B hB isServer tag tsn ht hs
+  | create now p _ hp _ ih => exact (create_preserves_pre _ _ now p ih hp).2
+  | react now k i isStr data _ ih => exact (react_preserves_pre _ _ now k i isStr data ih).2
+  | task now _ ih => exact (task_preserves_pre _ _ now ih).2
 
 /-- The invariant holds in every reachable state. -/
-theorem reach_inv2 (C : Ep → Nat → Prop) (U : List Nat) (hU : U.length ≤ 16381) {e : Ep} (h : Reach C U e) :
-    Inv2 U e := by
+theorem reach_inv2 (C : Ep → Nat → Prop) {B : Nat} {e : Ep} (h : Reach C B e) : Inv2 B e := by
   induction h with
-  | start now rp hb hr => exact (start_establishes_inv2 U _ now rp (before_pre C U hU hb) hr).2
-  | rx now d cookie _ hd hc _ ih => exact (rx_never_crashes2_proved U _ d cookie now ih hd hc).2
-  | fire now t _ ht ih => exact (fire_preserves_inv2 U _ now t ih ht).2
-  | task now _ ih => exact (task_preserves_inv2 U _ now ih).2
-  | create now p _ hp _ ih => exact (create_preserves_inv2 U _ now p ih hp).2
-  | send now i isStr data _ hi hs ih => exact (send_preserves_inv2 U _ now i isStr data ih hi hs).2
-  | close now i _ hi hk ih => exact (close_preserves_inv2_partial U _ now i ih hi hk).2
-  | threshold now i v _ hi ih => exact (threshold_preserves_inv2 U _ now i v ih hi).2
-  | stop now _ ih => exact (stop_preserves_inv2 U _ now ih).2
+  | start now rp hb hr => exact (start_establishes_inv2 _ _ now rp (before_pre C hb) hr).2
+  | rx now d cookie _ hd hc _ ih => exact (rx_never_crashes2_proved _ _ d cookie now ih hd hc).2
+  | fire now t _ ht ih => exact (fire_preserves_inv2 _ _ now t ih ht).2
+  | task now _ ih => exact (task_preserves_inv2 _ _ now ih).2
+  | create now p _ hp _ ih => exact (create_preserves_inv2 _ _ now p ih hp).2
+  | send now i isStr data _ hi ih => exact (send_preserves_inv2 _ _ now i isStr data ih hi).2
+  | react now k i isStr data _ ih => exact (react_preserves_inv2 _ _ now k i isStr data ih).2
+  | close now i _ hi hk ih => exact (close_preserves_inv2_partial _ _ now i ih hi hk).2
+  | threshold now i v _ hi ih => exact (threshold_preserves_inv2 _ _ now i v ih hi).2
+  | stop now _ ih => exact (stop_preserves_inv2 _ _ now ih).2
 
-/-- The goal: no state reachable from `Ep.init` can be crashed by a datagram — without capacity assumptions on the
-stream ids. -/
+/-- The goal: no state reachable from `Ep.init` — with any event handlers armed — can be crashed by a datagram. -/
 def reachable_rx_never_crashes : Prop :=
-  ∀ (U : List Nat), U.length ≤ 16381 → ∀ (e : Ep), Reach (fun _ _ => True) U e →
+  ∀ (B : Nat) (e : Ep), Reach (fun _ _ => True) B e →
     ∀ (d cookie : Bytes) (now : Int), IsBytes d → cookie.length ≤ 1000 →
       ∀ k, Out.crash k ∉ (step e now (.rx d cookie)).2
 
 /-- Along every run (inputs under the API preconditions of `Reach`) no input raises inside the transport, and no
 byte string can crash or hang the receive path of the state reached. -/
 theorem reachable_rx_never_crashes_proved : reachable_rx_never_crashes :=
-  fun U hU e h d cookie now hd hc =>
-    (rx_never_crashes2_proved U e d cookie now (reach_inv2 _ U hU h) hd hc).1
+  fun B e h d cookie now hd hc =>
+    (rx_never_crashes2_proved B e d cookie now (reach_inv2 _ h) hd hc).1
 
 /-! ## constants, and the hypotheses are satisfiable -/
 
@@ -310,9 +352,10 @@ theorem forward_tsn_capacity (streams : List (Nat × Nat)) (h : pairsInRange str
   simp only [Chunk.inRange, h, Bool.and_true, Bool.and_eq_true, decide_eq_true_eq]
   omega
 
-/-- A started client with a channel created before `start()` (still waiting for its stream id, partially reliable)
-is reachable and satisfies the invariant. -/
-example : ∃ e, Reach (fun _ _ => True) [1, 3] e ∧ Inv2 [1, 3] e ∧ (e.chans.map (·.id)) = [none] := by
+/-- A started client with a partially reliable channel created before `start()` (still waiting for its stream id) and
+two armed handlers (a `datachannel` handler, and an `open` handler for a channel that does not exist) is reachable and
+satisfies the invariant. -/
+example : ∃ e, Reach (fun _ _ => True) 100 e ∧ Inv2 100 e ∧ (e.chans.map (·.id)) = [none] ∧ e.reactions.length = 2 := by
   let p : CreateParams := { label := [99], protocol := [], ordered := true, maxRetransmits := some 0,
                             maxPacketLifeTime := none, negotiated := false, id := none }
   have hp : V2.CreateOk p := by
@@ -320,9 +363,12 @@ example : ∃ e, Reach (fun _ _ => True) [1, 3] e ∧ Inv2 [1, 3] e ∧ (e.chans
     · intro r hr; cases hr; decide
     · intro r hr; cases hr
     · intro v hv; cases hv
-  have hb0 : Before (fun _ _ => True) [1, 3] (Ep.init false 222 5000) := .init false 222 5000 (by decide) (by decide)
-  have hb1 := Before.create (C := fun _ _ => True) (U := [1, 3]) 1024000 p hb0 hp trivial
-  have hr := Reach.start (C := fun _ _ => True) (U := [1, 3]) 1024000 5000 hb1 (by decide)
-  exact ⟨_, hr, reach_inv2 _ [1, 3] (by decide) hr, by decide +kernel⟩
+  have hb0 : Before (fun _ _ => True) 102 (Ep.init false 222 5000) :=
+    .init 102 false 222 5000 (by decide) (by decide) (by decide)
+  have hb1 := Before.create (C := fun _ _ => True) 1024000 p hb0 hp trivial
+  have hb2 := Before.react (C := fun _ _ => True) 1024000 4 0 true [104, 105] hb1
+  have hr := Reach.start (C := fun _ _ => True) 1024000 5000 hb2 (by decide)
+  have hr2 := Reach.react (C := fun _ _ => True) 1024000 0 7 false [1] hr
+  exact ⟨_, hr2, reach_inv2 _ hr2, by decide +kernel, by decide +kernel⟩
 
 end Aiortc.Props.C05Sctp2
